@@ -35,6 +35,7 @@ type childProc struct {
 	cmd     *exec.Cmd
 	stdin   *bufio.Writer
 	stdout  *bufio.Reader
+	outFile *os.File
 	errPath string
 	done    chan error
 }
@@ -55,14 +56,23 @@ func spawnChild(tag string, mode string, args ...string) (*childProc, error) {
 	cmd := exec.Command(self, append([]string{"child", mode}, args...)...)
 	cmd.Stderr = ef
 	in, _ := cmd.StdinPipe()
-	out, _ := cmd.StdoutPipe()
-	cmd.SysProcAttr = &syscall.SysProcAttr{Pdeathsig: syscall.SIGKILL}
-	if err := cmd.Start(); err != nil {
+	// own pipe for stdout: cmd.Wait() closes a StdoutPipe as soon as the child exits, which can lose its last line
+	outR, outW, err := os.Pipe()
+	if err != nil {
 		ef.Close()
 		return nil, err
 	}
+	cmd.Stdout = outW
+	cmd.SysProcAttr = &syscall.SysProcAttr{Pdeathsig: syscall.SIGKILL}
+	if err := cmd.Start(); err != nil {
+		ef.Close()
+		outR.Close()
+		outW.Close()
+		return nil, err
+	}
 	ef.Close()
-	c := &childProc{cmd: cmd, stdin: bufio.NewWriter(in), stdout: bufio.NewReader(out), errPath: errPath, done: make(chan error, 1)}
+	outW.Close()
+	c := &childProc{cmd: cmd, stdin: bufio.NewWriter(in), stdout: bufio.NewReader(outR), outFile: outR, errPath: errPath, done: make(chan error, 1)}
 	go func() { c.done <- cmd.Wait() }()
 	return c, nil
 }
@@ -134,7 +144,12 @@ func (c *childProc) stderrTail(n int) string {
 	return strings.Join(keep, "\n")
 }
 
-func (c *childProc) cleanup() { _ = os.Remove(c.errPath) }
+func (c *childProc) cleanup() {
+	_ = os.Remove(c.errPath)
+	if c.outFile != nil {
+		_ = c.outFile.Close()
+	}
+}
 
 // ---- canary for KF02 (btree iterator invalidated by a deletion while a GC pass has released the lock) --------
 
